@@ -11,7 +11,7 @@ MEASURES = ["degree", "retarded_degree", "advanced_degree",
             "boundary_corrected_betweenness"]
 
 
-def _observe(kind, x, t, mvflag, tnone):
+def _observe(kind, x, t, mvflag, tnone, reverse=False):
     from pyunicorn.timeseries import VisibilityGraph
     o = {"exc": "", "adj": [], "m": {}, "vis": [], "vis1": []}
     x = np.array(x, dtype=float)
@@ -30,14 +30,18 @@ def _observe(kind, x, t, mvflag, tnone):
     except Exception as ex:
         o["exc"] = "visibility:" + type(ex).__name__
         return o
-    for m in MEASURES:
-        if not hasattr(vg, m):
-            continue
-        v, exc = enc.call(getattr(vg, m))
-        if exc:
-            o["exc"] = m + ":" + exc
-            return o
-        o["m"][m] = enc.arr(v)
+    # first pass in the listed (or the opposite) order, then every measure once more: a measure is a function
+    # of the graph, not of what has been asked before
+    o["m2"] = {}
+    for key, order in (("m", MEASURES[::-1] if reverse else MEASURES), ("m2", MEASURES)):
+        for m in order:
+            if not hasattr(vg, m):
+                continue
+            v, exc = enc.call(getattr(vg, m))
+            if exc:
+                o["exc"] = m + ":" + exc
+                return o
+            o[key][m] = enc.arr(v)
     return o
 
 
@@ -51,7 +55,7 @@ def run_case(c):
     rec["obs"] = _observe(c["kind"], xs, t, c["mvflag"], c["tnone"])
     # Derive: time reversal (values reversed, times mirrored)
     tr = (t[-1] - t)[::-1]
-    rec["rev"] = _observe(c["kind"], xs[::-1], tr, c["mvflag"], c["tnone"])
+    rec["rev"] = _observe(c["kind"], xs[::-1], tr, c["mvflag"], c["tnone"], reverse=True)
     # Derive: positive dyadic affine map of values and of times
     a = c["aff"]
     xa = xs * a["xm"][0] / a["xm"][1] + a["xa"]
